@@ -45,6 +45,9 @@ type Expect struct {
 	// SyncNotDeleted: paths reported with a failing response status other than
 	// 404: the resource failed, it was not removed.
 	SyncNotDeleted []string `json:"sync_not_deleted,omitempty"`
+	// NoData: the answer is an HTTP failure; nothing may be returned next to
+	// the error.
+	NoData bool `json:"no_data,omitempty"`
 	// StrOneOf: a successful single-value result must be one of these.
 	StrOneOf []string `json:"str_one_of,omitempty"`
 }
@@ -296,6 +299,13 @@ func judge(c *fw.Ctx, m *minfo, cs *Case, oc *outcome) {
 		}
 	}
 
+	if gotErr && cs.Exp.NoData {
+		if out := normalise(m, oc.raw); out.Str != "" || len(out.Entries) > 0 || len(out.Deleted) > 0 || out.Token != "" || out.BodyLen > 0 {
+			report(cs.Class, "data returned next to the error", fmt.Sprintf("HTTP failure, yet result %+v", out))
+		} else {
+			c.Observe("checks", "HTTP failure returned no data", 1)
+		}
+	}
 	if gotErr {
 		c.Observe("error_shape", fmt.Sprintf("http %s|%s -> %s", httpClass(cs.Status), cs.Kind, errShape(oc.err)), 1)
 		if cs.Exp.HTTPCode != 0 {
@@ -492,7 +502,7 @@ func init() {
 		Replay: replay,
 		Rule: "Every public client method of webdav/caldav/carddav (23 methods) against a scripted fake HTTP client. " +
 			"matrix (exhaustive): HTTP status 100..599 x body kind {none, text/plain, DAV:error as application/xml, DAV:error as text/xml, garbage with XML type, valid multistatus for the method, valid object} x method, " +
-			"plus Create with the answer sent before the upload is read; uploads: Create/Write*/Close scripted on both sides (answer before, after 1 byte, after half, after all of the upload x 0/100/1 MiB in 0/1/3/256 Writes x Close after the first Write error or after ignoring errors x 10 statuses, thorough +39); every call runs on its own goroutine and a call that neither returns nor can be woken (quiescence rule) is a hang finding; valid: randomly populated conformant multistatus documents in random lexical forms; " +
+			"plus Create with the answer sent before the upload is read; uploads: Create/Write*/Close scripted on both sides (answer before, after 1 byte, after half, after all of the upload x 0/100/1 MiB in 0/1/3/256 Writes x Close after the first Write error or after ignoring errors x 10 statuses, thorough +39); every call runs on its own goroutine and a call that neither returns nor can be woken (quiescence rule) is a hang finding; errbodies: the body of a 3xx/4xx/5xx answer as an axis of its own (ASCII, NULs, white space, 2/3/4-byte UTF-8 with a rune straddling every boundary, 0x80/0xBF/0xFF runs, lone lead bytes at the 1024 cut, complete and cut DAV:error documents; lengths 0,1,1023,1024,1025,4096,1 MiB; Content-Type text/plain with and without charset, text/html, application/xml, text/xml, missing, malformed) for every method: error with the status, no data, no panic; valid: randomly populated conformant multistatus documents in random lexical forms; " +
 			"placements (exhaustive): every assignment of {200,204,102,302,403,404,500,507} to response status / needed-property propstat / optional-property propstat over 2 (thorough 3) responses per list method and sync-collection, and over the single response of PROPFIND-Depth-0 methods; " +
 			"truncation (exhaustive): every prefix of one (thorough 3) valid multistatus document per multistatus method and of valid iCalendar/vCard bodies; corrupt: well-formed multistatus whose needed value / status line / embedded object cannot be interpreted; " +
 			"mutations: random byte edits of valid documents and objects (no-panic only); oversized: 8 MiB bodies; headers: DAV/ETag/Location variants. " +
